@@ -3,7 +3,7 @@
 import json, os, re
 ROOT = '/verif/seeded'
 rows = []
-for sid in sorted(os.listdir(ROOT)):
+for sid in sorted(i for i in os.listdir(ROOT) if not i.startswith('_')):
     p = os.path.join(ROOT, sid, 'meta.json')
     if not os.path.exists(p):
         continue
